@@ -27,6 +27,12 @@ def NoZeroChild (t : Tbl P) : Prop :=
   ∀ i, i < t.n → NodeIsh t i → InRange t i →
     ∀ j, (t.get i).a < j → j < (t.get i).a + (t.get i).b → (t.get j).s ≠ 0
 
+/-- every non-zero syllable inside a child range is a value `Syllable::try_from` accepts (`validCode`; what the
+    per-record syllable check of `validate_index` guarantees since the repair of C13's F47) -/
+def ValidSyls (t : Tbl P) : Prop :=
+  ∀ i, i < t.n → NodeIsh t i → InRange t i →
+    ∀ j, (t.get i).a ≤ j → j < (t.get i).a + (t.get i).b → (t.get j).s ≠ 0 → validCode (t.get j).s = true
+
 instance (t : Tbl P) (i : Nat) : Decidable (NodeIsh t i) := by unfold NodeIsh; exact inferInstance
 instance (t : Tbl P) (i : Nat) : Decidable (InRange t i) := by unfold InRange; exact inferInstance
 
